@@ -26,7 +26,7 @@ INVALID_KINDS = ["capacity_zero", "capacity_negative", "capacity_float", "buffer
 
 
 def examples(tier):
-    return 4800 if tier == "quick" else 96000
+    return 9600 if tier == "quick" else 192000
 
 
 def _mk_invalid(t):
@@ -114,10 +114,11 @@ def _mk_invalid_kind(spec, kind, pick):
 def strategy(tier):
     valid = gen_factory.factories(PROFILE)
     valid_k1 = gen_factory.factories(dict(PROFILE, nb_to_conveyor=True))
+    valid_conv = gen_factory.factories(dict(PROFILE, conveyor_weight=3, pack=0, edge_kinds=["Buffer", "Buffer", "Fleet"]))
     safe = gen_factory.factories({"pack": 1})
     invalid = st.tuples(safe, st.integers(0, 1000), st.integers(0, 1000)).map(_mk_invalid).map(
         lambda s: s if s is not None else {"skip": True})
-    return st.one_of(valid, valid, valid, valid_k1, invalid, invalid)
+    return st.one_of(valid, valid, valid_conv, valid_conv, valid_k1, invalid, invalid)
 
 
 shrink_candidates = gen_factory.shrink_candidates
